@@ -22,7 +22,7 @@ PROPERTY = "C17"
 
 NAMES = ["t", "u"]
 SCHEMAS = ["none", "str", "list", "schema", "nested", "other", "db_only", "deep3"]
-ALIASES = [None, "x"]
+ALIASES = [None, "x", "t"]  # ("t": the alias spelled like a table name - equal written names, different tables)
 TEMPORAL = ["none", "for", "for2", "portion"]
 QCLS = [None, "pg"]
 
@@ -72,7 +72,10 @@ def mk_other(desc):
         return s
     if k == "aq":
         q = None if desc[2] is None else Query.from_(Table(desc[2])).select("a")
-        return AliasedQuery(desc[1], q)
+        a = AliasedQuery(desc[1], q)
+        return a.as_(desc[3]) if len(desc) > 3 and desc[3] else a
+    if k == "table":
+        return Table(desc[1], alias=desc[2])
     if k == "qb":
         alias, froms, sel = desc[1], desc[2], desc[3]
         q = Query.from_(Table(froms[0]))
@@ -93,6 +96,11 @@ def other_descs():
     for name in ("c1", "c2"):
         for q in (None, "t", "u"):
             out.append(["aq", name, q])
+        for al in ("x", "c1", "a1"):  # renamed after construction (name and alias differ / coincide with other names)
+            out.append(["aq", name, None, al])
+    # tables among the other selectables: comparisons across kinds (a builder is not a table, whatever their aliases)
+    for nm, al in (("t", None), ("t", "a1"), ("c1", None), ("a1", None)):
+        out.append(["table", nm, al])
     for alias in (None, "a1", "a2"):
         for froms in (["t"], ["u"], ["t", "u"]):
             for sel in ("a", "b"):
